@@ -1,9 +1,9 @@
 CONSTANTS
   Nets <- MCNetsK4
   Durations <- MCDurSmall
-  Cycle = 5
-  Timeout = 10
+  Configs <- MCCfgDefault
   CheckPeriod = 5
+  SendsPerSec = 15
   Slack = 1
   D = 0
 INIT InitConverged
